@@ -1029,7 +1029,8 @@ fn get_quote_trait_params<'a>(input: &DataType, ctx: &'a ImplContext) -> QuoteTr
     }).collect();
 
     let those_lts: Vec<&Lifetime> = ctx.struct_attr.ty.generics.as_ref().map(|g| g.args.iter().filter_map(|g| match g {
-        GenericArgument::Lifetime(l) => Some(l),
+        // 'static and '_ are not lifetime parameters: they are neither declared on the impl nor bound to 'o2o
+        GenericArgument::Lifetime(l) if l.ident != "static" && l.ident != "_" => Some(l),
         _ => None
     }).collect()).unwrap_or_default();
 
